@@ -2,5 +2,8 @@
 # Runs `python3 "$@"` inside the dune environment of /repo/_build (run-in-dune-env).  run-in-dune-env prints a
 # banner on stdout; the case-by-case output of impl.py must be the only thing on stdout, so stdout of the whole
 # command is sent to stderr and impl.py writes its lines to fd 3 (= the original stdout) when C20_OUT_FD=3.
+# The interpreter is a grandchild of this script: when the caller's timeout kills this script the interpreter would
+# survive (and, if it hangs after a memory-corrupting defect, keep the dune-py lock).  GNU timeout runs the command
+# in its own process group and kills the whole group, so a hung interpreter is always reaped (C20_INNER_TIMEOUT seconds).
 exec 3>&1
-exec /repo/_build/run-in-dune-env python3 "$@" 1>&2
+exec timeout -s KILL "${C20_INNER_TIMEOUT:-1500}" /repo/_build/run-in-dune-env python3 "$@" 1>&2
